@@ -272,9 +272,15 @@ def identity_laws(run: core.Run) -> None:
         i1 = trace_ids(doc, tmp, [])
         os.utime(tmp / "vals.csv", (1, 1))                 # mtime only
         i2 = trace_ids(doc, tmp, [])
-        (tmp / "vals.csv").write_text("factor\n2.0\n5.0\n")  # content
+        (tmp / "vals.csv").write_text("factor\n2.0\n5.0\n7.0\n")  # content (and number of rows)
         i3 = trace_ids(doc, tmp, [])
         run.evaluations += 3
+        # ... and the launch that follows the edit runs the file as it is NOW (same interpreter, same path)
+        starts = sorted((r for r in read_trace(tmp) if r["record_type"] == "pipeline_start"), key=lambda r: r.get("run_space_index", 0))
+        got_rows = [(r.get("run_space_context") or {}).get("factor") for r in starts]
+        if got_rows != [2.0, 5.0, 7.0] or i3.get("run_space_planned_run_count") != 3:
+            run.violation("inputs:stale-source-rows", f"after the source file was rewritten to rows [2.0, 5.0, 7.0] the next launch in the same interpreter "
+                          f"planned {i3.get('run_space_planned_run_count')} runs with factor values {got_rows}", {})
         if not i1.get("run_space_inputs_id") or i1.get("run_space_inputs_id") != i2.get("run_space_inputs_id"):
             run.violation("inputs-id:mtime-sensitive", f"inputs id changed although only the file's mtime changed: {i1.get('run_space_inputs_id')} / {i2.get('run_space_inputs_id')}", {})
         if i3.get("run_space_inputs_id") == i1.get("run_space_inputs_id"):
@@ -310,7 +316,8 @@ def check(tier: str) -> int:
         raise core.MachineryError("too few launch behaviours emitted")
     jobs = []
     variants = [("dir", [], 1, None), ("file", [], 1, None), ("dir", ["--run-space-launch-id", "LAUNCH-X", "--run-space-attempt", "2"], 2, "LAUNCH-X"),
-                ("dir", ["--run-space-idempotency-key", "IDEM"], 1, None)]
+                ("dir", ["--run-space-idempotency-key", "IDEM"], 1, None),
+                ("file", ["--run-space-idempotency-key", "IDEM3", "--run-space-attempt", "3"], 3, None)]
     if tier == "thorough":
         variants += [("file", ["--run-space-attempt", "2"], 2, None), ("file", ["--run-space-idempotency-key", "IDEM2"], 1, None)]
     for c in cases:
